@@ -22,6 +22,8 @@ mod c13;
 #[cfg(kani)]
 mod c14;
 #[cfg(kani)]
+mod c14b;
+#[cfg(kani)]
 mod expr;
 #[cfg(kani)]
 mod c20;
